@@ -1,7 +1,12 @@
 import OutrankModel.Gen.Src.C16
 import OutrankModel.Model.C16
+import OutrankModel.Model.Pipeline
 import OutrankModel.Lemmas.Bridge
-/-! Source tie of C16: the field-count validity test, the format dispatch and the namespace-line tests as the source states them now. -/
+import OutrankModel.Lemmas.PyStr
+/-! Source tie of C16: the field-count validity test, the format dispatch and the namespace-line tests as the source states them
+now, and (second half) the STRING-valued expressions of the line parsers `parse_ob_line`, `parse_ob_line_vw`, `parse_namespace`,
+`parse_csv_raw` against the hand model `Model/C16.lean`.  The model works on `List Char`; the generated definitions on `String`:
+the bridges are stated through `String.toList` / `String.ofList`.  `none` of a generated `Option` = the Python expression raises. -/
 namespace Src.C16
 open Gen.Src.C16
 
@@ -41,8 +46,195 @@ theorem two_field_line_model (n : Nat) (id : String) :
 
 theorem is_float_model (t : String) : isFloat t = decide (t = "f32") := by unfold isFloat; rfl
 /-- VW tokens: empty strings produced by repeated spaces are dropped – the model's `rest.filter (· != [])` -/
-theorem keep_token_model (x : String) : keepToken x = decide (x ≠ "") := by unfold keepToken; rfl
+theorem keep_token_model (x : String) : keepToken x = decide (x ≠ "") := by unfold keepToken; bridge
 
 example : validLine 3 3 = true ∧ validLine 4 3 = false ∧ validLine 2 3 = false := by decide
 example : twoFieldLine 2 "12" = true ∧ twoFieldLine 2 "1_2" = false ∧ twoFieldLine 3 "12" = false := by decide
+
+/-! ## `parse_ob_line` (tab-separated lines): `C16.tsvParse d line = split (rstrip line)` of the source -/
+
+/-- `line_string.rstrip('\r\n')` removes exactly the line terminator (`C16.stripEOL`), nothing else -/
+theorem tsv_stripped_model (line : String) : (tsvStripped line).toList = C16.stripEOL line.toList := by
+  unfold tsvStripped C16.stripEOL
+  simp only [PyStr.toList_rstripChars]          -- no progress (= fails at once) unless the source is an `rstrip(<chars>)`
+  refine PyStr.rstripP_congr (fun c => ?_) _
+  -- the SET of stripped characters is the model's `isNL`; order / repetitions in the literal do not matter
+  simp only [Py.inChars, C16.isNL]
+  simp
+  try bridge
+
+/-- `line_string.split(delimiter)`, delimiter of length 1 (hypothesis `hd`): the model's `splitOn` -/
+theorem tsv_fields_model (line sep : String) (d : Char) (hd : sep.toList = [d]) :
+    tsvFields line sep = some ((C16.splitOn d line.toList).map String.ofList) := by
+  unfold tsvFields
+  simp [PyStr.split?_of_single line sep d hd]
+
+/-- the empty delimiter is an error in Python (`ValueError`) and `none` here – not silently a list -/
+theorem tsv_fields_empty_delimiter (line : String) : tsvFields line "" = none := by
+  unfold tsvFields; simp [PyStr.split?_empty]
+
+/-- the whole function: the source's `split` applied to the source's `rstrip` is `C16.tsvParse` -/
+theorem tsv_parse_uses_source (line sep : String) (d : Char) (hd : sep.toList = [d]) :
+    tsvFields (tsvStripped line) sep = some ((C16.tsvParse d line.toList).map String.ofList) := by
+  rw [tsv_fields_model _ _ d hd, tsv_stripped_model]; rfl
+
+example : "\t".toList = ['\t'] := by decide                 -- the hypothesis `hd` is satisfiable (the default delimiter)
+example : tsvFields (tsvStripped " a\t\tb \r\n") "\t" = some [" a", "", "b "] := by decide
+
+/-! ## `parse_ob_line_vw` -/
+
+/-- `line_string.strip().split('|')` -/
+theorem vw_parts_model (line : String) :
+    vwParts line = (C16.splitOn '|' (C16.pyStrip line.toList)).map String.ofList := by
+  unfold vwParts
+  simp only [PyStr.split_of_single _ "|" '|' (by simp), PyStr.strip_model]
+
+/-- `all_line_parts[0].split(' ')[0]`: `none` (IndexError) exactly for an empty list of parts, else the model's label -/
+theorem vw_label_model (parts : List String) :
+    vwLabel parts = parts.head?.map fun p0 => String.ofList ((C16.splitOn ' ' p0.toList).headD []) := by
+  unfold vwLabel
+  cases parts with
+  | nil => rfl
+  | cons p0 rest =>
+    simp only [List.getElem?_cons_zero, Option.bind_some, List.head?_cons, Option.map_some]
+    simp only [PyStr.split_of_single p0 " " ' ' (by simp)]
+    cases h : C16.splitOn ' ' p0.toList with
+    | nil => exact absurd h (PyStr.splitOn_ne_nil _ _)
+    | cons a b => simp
+
+/-- `all_line_parts[1:]` -/
+theorem vw_remainder_model (parts : List String) : vwRemainder parts = parts.tail := by
+  unfold vwRemainder; simp
+
+/-- `remaining_part.strip().split(' ')` -/
+theorem vw_core_model (part : String) :
+    vwCore part = (C16.splitOn ' ' (C16.pyStrip part.toList)).map String.ofList := by
+  unfold vwCore
+  simp only [PyStr.split_of_single _ " " ' ' (by simp), PyStr.strip_model]
+
+/-- `core_parts[0]` -/
+theorem vw_namespace_model (core : List String) : vwNamespace core = core.head? := by
+  unfold vwNamespace; cases core <;> simp
+
+/-- `'-'.join(x for x in core_parts[1:] if x != '')` -/
+theorem vw_value_model (core : List String) :
+    (vwValue core).toList = C16.joinSep ['-'] ((core.tail.map String.toList).filter fun x => x != []) := by
+  unfold vwValue
+  simp only [PyStr.join_model, PyStr.map_toList_filter]
+  simp
+  -- what is left is the condition of the filter, pointwise (so that `if x`, `if not x == ''` … still check)
+  try (refine congrArg _ (List.filter_congr fun l _ => ?_); cases l <;> simp)
+
+/-- one `|`-part: the model's `vwPart` is (source namespace, source value) of the source's `core_parts` -/
+theorem vw_part_uses_source (part : String) :
+    vwNamespace (vwCore part) = some (String.ofList (C16.vwPart part.toList).1) ∧
+    (vwValue (vwCore part)).toList = (C16.vwPart part.toList).2 := by
+  rw [vw_namespace_model, vw_value_model, vw_core_model]
+  unfold C16.vwPart
+  cases h : C16.splitOn ' ' (C16.pyStrip part.toList) with
+  | nil => exact absurd h (PyStr.splitOn_ne_nil _ _)
+  | cons ns rest => simp
+
+/-- the hash loop `for remaining_part in remainder:` with the source's expressions in its body (`none` = an exception of
+`core_parts[0]` would leave the loop): it never raises and builds the model's `vwHash` -/
+theorem vw_hash_uses_source (nsmap : List (C16.Str × C16.Str)) (parts : List String) :
+    parts.foldlM (fun h part =>
+        let core := vwCore part
+        (vwNamespace core).map fun ns =>
+          match C16.lookupStr ns.toList nsmap with
+          | some col => (col, (vwValue core).toList) :: h
+          | none => h) ([] : List (C16.Str × C16.Str))
+      = some (C16.vwHash nsmap (parts.map String.toList)) := by
+  unfold C16.vwHash
+  generalize ([] : List (C16.Str × C16.Str)) = h0
+  induction parts generalizing h0 with
+  | nil => rfl
+  | cons part rest ih =>
+    obtain ⟨h1, h2⟩ := vw_part_uses_source part
+    simp only [List.foldlM_cons, List.map_cons, List.foldl_cons, h1, h2, Option.map_some, Option.bind_eq_bind,
+      Option.bind_some, String.toList_ofList]
+    exact ih _
+
+/-- `x[2:]`: the two-character namespace prefix -/
+theorem vw_drop_ns_model (x : String) : (vwDropNs x).toList = x.toList.drop 2 := by
+  unfold vwDropNs; exact PyStr.dropStr_model x 2
+
+/-- `[x[2:] if x is not None else None …]` unless `include_namespace_info`: the model's `dropPrefix` -/
+theorem drop_prefix_uses_source (incl : Bool) (v : Option String) :
+    C16.dropPrefix incl (v.map String.toList) = (if incl then v else v.map vwDropNs).map String.toList := by
+  cases incl <;> cases v <;> simp [C16.dropPrefix, vw_drop_ns_model]
+
+/-- the whole function on the model's side: `C16.vwParse` IS the source's parts / label / remainder expressions followed by the
+hash loop (`C16.vwHash`, whose body `C16.vwPart` is `vw_part_uses_source`) and the prefix drop (`drop_prefix_uses_source`);
+the source's label expression never raises on the source's parts -/
+theorem vw_parse_uses_source (nsmap : List (C16.Str × C16.Str)) (header : List C16.Str) (incl : Bool) (line : String) :
+    ∃ label, vwLabel (vwParts line) = some label ∧
+      C16.vwParse nsmap header incl line.toList =
+        some label.toList :: header.tail.map fun el =>
+          C16.dropPrefix incl (C16.lookupStr el (C16.vwHash nsmap ((vwRemainder (vwParts line)).map String.toList))) := by
+  rw [vw_label_model, vw_remainder_model, vw_parts_model]
+  unfold C16.vwParse
+  cases h : C16.splitOn '|' (C16.pyStrip line.toList) with
+  | nil => exact absurd h (PyStr.splitOn_ne_nil _ _)
+  | cons p0 rest => exact ⟨_, rfl, by simp⟩
+
+example : vwParts " 1 |a a_x  a_y |b b_z\n" = ["1 ", "a a_x  a_y ", "b b_z"] := by decide
+example : vwLabel ["1 0.5 'tag ", "a a_x"] = some "1" ∧ vwLabel [] = none := by decide
+example : vwNamespace (vwCore " a a_x  a_y ") = some "a" ∧ vwValue (vwCore " a a_x  a_y ") = "a_x-a_y" := by decide
+example : vwDropNs "a_x-a_y" = "x-a_y" ∧ vwDropNs "a" = "" := by decide
+
+/-! ## `parse_namespace` -/
+
+/-- `line.strip().split(',')` – the `parts` of the model's `nsStep` -/
+theorem ns_parts_model (line : String) :
+    nsParts line = (C16.splitOn ',' (C16.pyStrip line.toList)).map String.ofList := by
+  unfold nsParts
+  simp only [PyStr.split_of_single _ "," ',' (by simp), PyStr.strip_model]
+
+/-- one line of the namespace file: the model's step with the source's split, the source's two-field test and the source's
+`f32` test (a failed unpacking raises inside the `try` and the line is skipped) -/
+theorem ns_step_uses_source (s : C16.NsState) (line : String) :
+    C16.nsStep s line.toList =
+      (let parts := nsParts line
+       let entry : Option (String × String × String) :=
+         if twoFieldLine (parts.length : Int) (parts.headD "") then
+           (match parts with | [a, b] => some (a, b, "generic") | _ => none)
+         else
+           (match parts with | [a, b, c] => some (a, b, c) | _ => none)
+       match entry with
+       | none => s
+       | some (fid, feat, ty) =>
+         { map := C16.dictSet s.map fid.toList feat.toList,
+           floats := if isFloat ty then C16.setAdd s.floats feat.toList else s.floats }) := by
+  rw [ns_parts_model]
+  unfold C16.nsStep
+  rcases C16.splitOn ',' (C16.pyStrip line.toList) with _ | ⟨a, _ | ⟨b, _ | ⟨c, _ | ⟨d, r⟩⟩⟩⟩
+  · simp
+  · simp
+  · have h2 : twoFieldLine 2 (String.ofList a) = !a.contains '_' := by
+      simpa using two_field_line_model 2 (String.ofList a)
+    have hg : ¬ ("generic" = "f32") := by decide
+    by_cases hu : '_' ∈ a <;> simp [h2, hu, is_float_model, hg]
+  · have h3 : twoFieldLine 3 (String.ofList a) = false := by
+      simpa using two_field_line_model 3 (String.ofList a)
+    have hf : (String.ofList c = "f32") ↔ c = ['f', '3', '2'] := by
+      rw [← String.toList_inj]; simp
+    simp [h3, is_float_model, hf]
+  · simp
+
+example : nsParts " 12,feature_a,f32\n" = ["12", "feature_a", "f32"] := by decide
+
+/-! ## `parse_csv_raw` -/
+
+/-- `header.strip().split(col_delimiter)` for a one-character delimiter -/
+theorem header_fields_model (header sep : String) (d : Char) (hd : sep.toList = [d]) :
+    headerFields header sep = some ((C16.splitOn d (C16.pyStrip header.toList)).map String.ofList) := by
+  unfold headerFields
+  simp [PyStr.split?_of_single _ sep d hd, PyStr.strip_model]
+
+/-- with the source's `col_delimiter = ','`: the header reader of the pipeline model -/
+theorem header_cols_uses_source (header : String) : headerFields header "," = some (Pipeline.headerCols header.toList) := by
+  rw [header_fields_model header "," ',' (by simp)]; rfl
+
+example : headerFields " a,b c,,d\n" "," = some ["a", "b c", "", "d"] := by decide
 end Src.C16
